@@ -81,6 +81,7 @@ fn handle(ws: &[&str]) -> String {
                 let op = match (&o[..1], parts.as_slice()) {
                     ("s", [b, x]) => gen_um::UmOp::Set(b.parse().unwrap_or(0), x.parse().unwrap_or(0)),
                     ("g", [b, lo, hi]) => gen_um::UmOp::Guid(b.parse().unwrap_or(0), lo.parse().unwrap_or(0), hi.parse().unwrap_or(0)),
+                    ("i", [sl, lo, hi]) => gen_um::UmOp::Idx(sl.parse().unwrap_or(0), lo.parse().unwrap_or(0), hi.parse().unwrap_or(0)),
                     ("r", _) => gen_um::UmOp::Reset,
                     ("m", _) => gen_um::UmOp::Mark,
                     _ => return "bad-op".into(),
